@@ -266,15 +266,57 @@ theorem C12_number_lt_gt_swap (h : FloatOrderLaws fo) (a b : Number F) :
   | some o => cases o <;> exact ⟨rfl, rfl⟩
 
 /-- on any combination of operands that is not two numbers, two characters, two bytes, two char lists
-or two byte lists, all four operators yield false — never an error (slices are outside this model) -/
+or two byte lists, all four operators yield false — never an error (two slices: `C12_slices_*` below) -/
 theorem C12_foreign_false (l r : Val F)
     (h : ¬ (l.typeOf = r.typeOf ∧ (l.typeOf = .number ∨ l.typeOf = .char ∨ l.typeOf = .byte ∨
-             l.typeOf = .charList ∨ l.typeOf = .byteList))) :
+             l.typeOf = .charList ∨ l.typeOf = .byteList)))
+    (hs : ¬ (l.typeOf = .slice ∧ r.typeOf = .slice)) :
     lessThan fo l r = .fls ∧ lessThanOrEqual fo l r = .fls ∧
     greaterThan fo l r = .fls ∧ greaterThanOrEqual fo l r = .fls := by
   have : compareVals fo l r = .foreign := by
     cases l <;> cases r <;> simp_all [compareVals, Val.typeOf]
   simp [lessThan, lessThanOrEqual, greaterThan, greaterThanOrEqual, cmpOp, this]
+
+/-! ### two slices (the Slice/Slice arm of `perform_comparison`)
+
+The code orders two slices of text, or two slices of bytes, by running `cmp_list` from the two START offsets to the end of the
+underlying lists and breaking a tie by the FULL lengths of the underlying lists; the ends of the ranges do not take part. This is
+what the code does, modelled as it is (`cmpListFrom`); it is NOT the order of the selected texts (a witness below), which is why
+slices stay outside the order laws of this property. Slices over any other kind of value, and over two different kinds, are not
+ordered: all four operators yield false. -/
+
+/-- slices over different kinds of value (or over values that are neither text nor bytes) are not ordered -/
+theorem C12_slices_foreign_false (lv lr rv rr : Val F)
+    (h : ¬ (lv.typeOf = rv.typeOf ∧ (lv.typeOf = .charList ∨ lv.typeOf = .byteList))) :
+    lessThan fo (.slice lv lr) (.slice rv rr) = .fls ∧ lessThanOrEqual fo (.slice lv lr) (.slice rv rr) = .fls ∧
+    greaterThan fo (.slice lv lr) (.slice rv rr) = .fls ∧ greaterThanOrEqual fo (.slice lv lr) (.slice rv rr) = .fls := by
+  have : compareVals fo (.slice lv lr) (.slice rv rr) = .foreign := by
+    cases lv <;> cases rv <;> simp_all [compareVals, compareSlices, Val.typeOf]
+  simp [lessThan, lessThanOrEqual, greaterThan, greaterThanOrEqual, cmpOp, this]
+
+/-- two slices of text with integer ranges and non-negative starts: the answer is `cmp_list` from the start offsets, whatever
+the ends are — and the four operators are then consistent with each other (`C12_le_is_not_gt`, `C12_trichotomy` apply) -/
+theorem C12_slices_of_text (a b : List Nat) (s1 e1 s2 e2 : Int) (h1 : 0 ≤ s1) (h2 : 0 ≤ s2)
+    (hl1 : InRange (e1 - s1) ∧ InRange (e1 - s1 + 1)) (hl2 : InRange (e2 - s2) ∧ InRange (e2 - s2 + 1)) :
+    compareVals fo (.slice (.chars a) (.range (.num (.int s1)) (.num (.int e1))))
+                   (.slice (.chars b) (.range (.num (.int s2)) (.num (.int e2)))) =
+      .ord (cmpListFrom a b s1.toNat s2.toNat) := by
+  simp [compareVals, compareSlices, sliceStart, h1, h2, hl1, hl2]
+
+/-- the same slice against itself is "equal" under all four operators (`<=`, `>=` true; `<`, `>` false) -/
+theorem cmpTail_self (xs : List Nat) (n : Nat) : cmpTail xs xs n n = .eq := by
+  induction xs with
+  | nil => simp [cmpTail]
+  | cons x xs ih => simp [cmpTail, ih]
+
+theorem C12_slice_self (a : List Nat) (i : Nat) : cmpListFrom a a i i = .eq := by
+  simp [cmpListFrom, cmpTail_self]
+
+/-- witness that the code's order on slices is not the order of the selected texts: `"abcd"` from 1 and `"bcd"` from 0 select
+the same text to the end, yet the first is "greater" because the underlying list is longer -/
+example : cmpListFrom [97, 98, 99, 100] [98, 99, 100] 1 0 = .gt := by decide
+/-- two different selections of one text are told apart by their start offsets -/
+example : cmpListFrom [97, 98, 99, 100, 101, 102] [97, 98, 99, 100, 101, 102] 0 1 = .lt := by decide
 
 /-- a float operand that is not a number makes the comparison unit -/
 theorem C12_unordered_unit (a b : Number F) (h : Number.partialCmp fo a b = none) :
